@@ -8,7 +8,10 @@
    applied to every reply; TLC checks that only allowed signatures ever appear (Allowed = the listed findings)
    and exports counterexamples / walks as histories for the harness (`ovl refs`).
    Not modelled: sub-directories (the "." / ".." entries of readdirplus only ever hit the root here), copy-up,
-   handles. AsFound = {"E708"} brings back the inode-number reservation before fix e708a31 (anti-vacuity). *)
+   handles. AsFound selects behaviour of the code as found: "DELGET" (a deleted-but-referenced number does not
+   resolve) and "OVERF" (forget saturates at 0, below the tree's own reference) describe the code as it is now and
+   are dropped once findings/ovlrefs-deleted-getattr.diff / ovlrefs-over-forget.diff are applied; "E708" brings
+   back the inode-number reservation before fix e708a31 (anti-vacuity run only). *)
 EXTENDS OvlRefs, Json, SequencesExt, Integers
 
 CONSTANTS Names, UpperNames, LowerNames, MaxOps, MaxIno, Allowed, AsFound
@@ -30,20 +33,24 @@ Alloc(n) == IF pm[n] # 0 /\ ("E708" \in AsFound \/ deleted[pm[n]] = NoD) THEN pm
 NextAfter(k) == IF k >= next THEN k + 1 ELSE next
 
 \* what the client observes after every step: getattr on every number
-Resolves(k, ns, ino) == ino[k] # "" /\ ns[ino[k]].ino = k
-Probed(S0, ns, ino) ==
+\* getattr(k): the active table; the deleted-but-referenced table only once findings/ovlrefs-deleted-getattr.diff is in
+\* ("DELGET" in AsFound = the code as found: lookup_node consults get_active_inode only). 0 = does not resolve.
+ObjOfNum(k, ns, ino, del) == IF ino[k] # "" /\ ns[ino[k]].ino = k THEN ns[ino[k]].obj
+                             ELSE IF "DELGET" \notin AsFound /\ del[k] # NoD THEN del[k].obj ELSE 0
+Probed(S0, ns, ino, del) ==
   LET RECURSIVE P(_, _)
       P(S1, K) == IF K = {} THEN S1
                   ELSE LET k == CHOOSE x \in K : TRUE
-                           ok == Resolves(k, ns, ino)
-                       IN P(RProbe(S1, k, ok, ~ok \/ ~Held(S1, k) \/ ns[ino[k]].obj = S1.obj[k]), K \ {k})
+                           o == ObjOfNum(k, ns, ino, del)
+                           ok == o # 0 \/ (ino[k] # "" /\ ns[ino[k]].ino = k)
+                       IN P(RProbe(S1, k, ok, ~ok \/ ~Held(S1, k) \/ o = S1.obj[k]), K \ {k})
   IN P(S0, Nums)
 Shape(ns) == {n \in Names : ns[n] # NoN /\ ~ns[n].wh}
 
 Label(k) == "k" \o ToString(k)
 Commit(ns, ino, del, p, nx, no, S1, o) ==
   /\ nodes' = ns /\ inodes' = ino /\ deleted' = del /\ pm' = p /\ next' = nx /\ nobj' = no
-  /\ S' = Probed(S1, ns, ino)
+  /\ S' = Probed(S1, ns, ino, del)
   /\ hist' = Append(hist, o) /\ nops' = nops + 1
 
 Lookup(n) ==
@@ -91,11 +98,18 @@ Unlink(n) ==
 
 \* forget_one
 Forget(k, c) ==
-  LET o == [op |-> "forget", mn |-> k, n |-> c]
+  LET \* hint: the name whose node carries the number now (a client that was never given the number can still guess it;
+      \* the harness learns the real number by a balanced lookup + forget of that name)
+      o == [op |-> "forget", mn |-> k, n |-> c,
+            hint |-> IF inodes[k] # "" /\ nodes[inodes[k]].ino = k /\ ~nodes[inodes[k]].wh THEN <<inodes[k]>> ELSE <<>>]
       S1 == RForget(S, k, c)
       kind == IF S1.over # S.over THEN "over-forget" ELSE "forget"
   IN IF inodes[k] # "" /\ nodes[inodes[k]].ino = k
-     THEN LET n == inodes[k] nd == nodes[n] lk1 == IF nd.lk < c THEN 0 ELSE nd.lk - c IN
+     THEN LET n == inodes[k] nd == nodes[n]
+              \* a node that still has its name keeps the tree's own reference (findings/ovlrefs-over-forget.diff);
+              \* "OVERF" in AsFound = the code as found: saturation at 0
+              floor == IF "OVERF" \in AsFound THEN 0 ELSE 1
+              lk1 == IF nd.lk < c + floor THEN (IF nd.lk < floor THEN nd.lk ELSE floor) ELSE nd.lk - c IN
           IF lk1 > 0 THEN Commit([nodes EXCEPT ![n].lk = lk1], inodes, deleted, pm, next, nobj, S1, o)
           ELSE \* remove_inode(.., None); the parent's map entry goes only if the node has a parent pointer
                LET ns == IF nd.par THEN [nodes EXCEPT ![n] = NoN] ELSE [nodes EXCEPT ![n].lk = 0] IN
